@@ -20,7 +20,7 @@ type Gen struct {
 	big     bool // now and then a tensor of 4097..2^17 elements
 }
 
-var families = []string{"construct", "access", "slice", "transpose", "copy", "iter", "arith", "cmp", "unary", "reduce",
+var families = []string{"kernelprobe", "construct", "access", "slice", "transpose", "copy", "iter", "arith", "cmp", "unary", "reduce",
 	"product", "assemble", "reshape", "serialise", "mask", "convert", "lifecycle"}
 
 func (g *Gen) pickDt() string {
@@ -458,6 +458,73 @@ func (g *Gen) genFamily(fam string) (Op, bool) {
 	r := g.r
 	w := g.w
 	switch fam {
+	case "kernelprobe":
+		// Every operation exists once per element type and per variant (plain, Iter, Incr, Recv, scalar forms). A short
+		// scripted sequence puts one of them - any element type with equal weight - in front of operands whose
+		// iterators yield different offsets: a view that does not fill its window against a contiguous tensor of the
+		// same shape, in a random role (destination of an unsafe operation, reuse, incr, plain operand).
+		dt := numericDts[r.Intn(len(numericDts))]
+		rows, cols := 2+r.Intn(3), 3+r.Intn(2)
+		parent := g.opNew(dt, []int{rows, cols})
+		parent.Mode, parent.N = []string{"row", "col"}[r.Intn(2)], 0
+		parent.F = float64(r.Intn(900))
+		c0 := r.Intn(cols - 1)
+		view := Op{Name: "Slice", In: []int{parent.Out}, I: []int{0, 0, 0, 0, 1, c0, c0 + 2, 1}, Out: g.newSlot(), Fam: "kernelprobe"}
+		if r.Intn(3) == 0 {
+			view.I = []int{1, 0, rows, 2, 0, 0, 0, 0} // every second row
+		}
+		vshape := []int{rows, 2}
+		if view.I[0] == 1 {
+			vshape = []int{(rows + 1) / 2, cols}
+		}
+		other := g.opNew(dt, vshape)
+		other.Mode, other.N = "row", 0
+		other.F = float64(r.Intn(900))
+		third := g.opNew(dt, vshape)
+		third.Mode, third.N = "row", 0
+		names := arithNames
+		cmp := r.Intn(3) == 0
+		if cmp {
+			names = cmpNames
+		}
+		op := Op{Name: names[r.Intn(len(names))], Out: g.newSlot(), F: float64(1 + r.Intn(3)), Fam: "kernelprobe"}
+		a, b := view.Out, other.Out
+		if r.Intn(2) == 0 {
+			a, b = b, a
+		}
+		switch r.Intn(4) {
+		case 0:
+			op.Form, op.In = "vs", []int{a}
+		case 1:
+			op.Form, op.In = "sv", []int{a}
+		default:
+			op.Form, op.In = "vv", []int{a, b}
+		}
+		switch r.Intn(5) {
+		case 0:
+			op.Mode = "unsafe"
+		case 1:
+			op.Mode, op.R = "reuse", []int{view.Out, third.Out}[r.Intn(2)]
+		case 2:
+			if !cmp {
+				op.Mode, op.R = "incr", []int{view.Out, third.Out}[r.Intn(2)]
+			}
+		}
+		if cmp {
+			switch op.Mode {
+			case "unsafe":
+				op.Mode = "same-unsafe"
+			case "reuse":
+				op.Mode = "same-reuse"
+			case "":
+				if r.Intn(2) == 0 {
+					op.Mode = "same"
+				}
+			}
+		}
+		g.queue = append(g.queue, view, other, third, op)
+		return parent, true
+
 	case "construct":
 		switch r.Intn(12) {
 		case 0:
